@@ -38,15 +38,25 @@ def teropRule (g : Nat) (f : Nat → Nat → Nat → Nat) (s : IState) : Done :=
     | a :: b :: c :: rest => .next { charge (adv s) g with stack := (f a b c :: rest).reverse }
     | _ => .halt .StackUnderflow [] (charge (adv s) g)
 
-/-- δ = 0, α = 1; `v = none` is the `unwrap()` of an unset `prevrandao` -/
-def pushValRule (g fork : Nat) (v : IState → Option Nat) (s : IState) : Done :=
+/-- δ = 0, α = 1 -/
+def pushValRule (g fork : Nat) (v : IState → Nat) (s : IState) : Done :=
   if !enabled s.spec fork then .halt .NotActivated [] (adv s)
   else if s.gas.remaining < g then .halt .OutOfGas [] (adv s)
-  else match v (charge (adv s) g) with
+  else if s.stack.length = 1024 then .halt .StackOverflow [] (charge (adv s) g)
+  else .next { charge (adv s) g with stack := s.stack ++ [v (charge (adv s) g)] }
+
+/-- DIFFICULTY / PREVRANDAO (EIP-4399): from the Merge on the block's `prevrandao`, before it the difficulty; an unset
+`prevrandao` is a panic of the code (`unwrap()`), which transaction validation excludes -/
+def difficultyRule (s : IState) : Done :=
+  if s.gas.remaining < GasCalc.BASE then .halt .OutOfGas [] (adv s)
+  else
+    let s2 := charge (adv s) GasCalc.BASE
+    let value : Option Nat := if enabled s.spec GasCalc.SpecId.MERGE then s.env.prevrandao else some s.env.difficulty
+    match value with
     | none => .fault .panic
     | some w =>
-      if s.stack.length = 1024 then .halt .StackOverflow [] (charge (adv s) g)
-      else .next { charge (adv s) g with stack := s.stack ++ [w] }
+      if s.stack.length = 1024 then .halt .StackOverflow [] s2
+      else .next { s2 with stack := s.stack ++ [w] }
 
 def popRule (s : IState) : Done :=
   if s.gas.remaining < GasCalc.BASE then .halt .OutOfGas [] (adv s)
@@ -166,23 +176,22 @@ def WordEntry.rule (e : WordEntry) : IState → Done :=
 structure EnvEntry where
   op : Nat
   fork : Nat
-  value : IState → Option Nat
+  value : IState → Nat
 
 open GasCalc GasCalc.SpecId in
 /-- the environment reads and PC / MSIZE / GAS: δ = 0, α = 1. `value` sees the state after the opcode byte is consumed
 and the gas is charged (PC is the position of the opcode itself, GAS the gas after the charge). -/
 def envTable : List EnvEntry :=
-  [⟨0x30, FRONTIER, fun s => some s.target⟩, ⟨0x32, FRONTIER, fun s => some s.env.origin⟩,
-   ⟨0x33, FRONTIER, fun s => some s.caller⟩, ⟨0x34, FRONTIER, fun s => some s.callValue⟩,
-   ⟨0x36, FRONTIER, fun s => some s.input.length⟩, ⟨0x38, FRONTIER, fun s => some s.origLen⟩,
-   ⟨0x3a, FRONTIER, fun s => some s.env.effectiveGasPrice⟩, ⟨0x3d, BYZANTIUM, fun s => some s.returnData.length⟩,
-   ⟨0x41, FRONTIER, fun s => some s.env.coinbase⟩, ⟨0x42, FRONTIER, fun s => some s.env.timestamp⟩,
-   ⟨0x43, FRONTIER, fun s => some s.env.number⟩,
-   ⟨0x44, FRONTIER, fun s => if enabled s.spec MERGE then s.env.prevrandao else some s.env.difficulty⟩,
-   ⟨0x45, FRONTIER, fun s => some s.env.gasLimit⟩, ⟨0x46, ISTANBUL, fun s => some s.env.chainId⟩,
-   ⟨0x48, LONDON, fun s => some s.env.basefee⟩, ⟨0x4a, CANCUN, fun s => some (s.env.blobGasPrice.getD 0)⟩,
-   ⟨0x58, FRONTIER, fun s => some (s.pc - 1)⟩, ⟨0x59, FRONTIER, fun s => some (Memory.len s.mem)⟩,
-   ⟨0x5a, FRONTIER, fun s => some s.gas.remaining⟩]
+  [⟨0x30, FRONTIER, fun s => s.target⟩, ⟨0x32, FRONTIER, fun s => s.env.origin⟩,
+   ⟨0x33, FRONTIER, fun s => s.caller⟩, ⟨0x34, FRONTIER, fun s => s.callValue⟩,
+   ⟨0x36, FRONTIER, fun s => s.input.length⟩, ⟨0x38, FRONTIER, fun s => s.origLen⟩,
+   ⟨0x3a, FRONTIER, fun s => s.env.effectiveGasPrice⟩, ⟨0x3d, BYZANTIUM, fun s => s.returnData.length⟩,
+   ⟨0x41, FRONTIER, fun s => s.env.coinbase⟩, ⟨0x42, FRONTIER, fun s => s.env.timestamp⟩,
+   ⟨0x43, FRONTIER, fun s => s.env.number⟩,
+   ⟨0x45, FRONTIER, fun s => s.env.gasLimit⟩, ⟨0x46, ISTANBUL, fun s => s.env.chainId⟩,
+   ⟨0x48, LONDON, fun s => s.env.basefee⟩, ⟨0x4a, CANCUN, fun s => s.env.blobGasPrice.getD 0⟩,
+   ⟨0x58, FRONTIER, fun s => s.pc - 1⟩, ⟨0x59, FRONTIER, fun s => Memory.len s.mem⟩,
+   ⟨0x5a, FRONTIER, fun s => s.gas.remaining⟩]
 
 def EnvEntry.rule (e : EnvEntry) : IState → Done := pushValRule GasCalc.BASE e.fork e.value
 
